@@ -136,3 +136,55 @@ func HT_C09_parseLong(n int) {
 		vAssert("zero-on-error", d == Date{})
 	}
 }
+
+// the number of year digits is part of the grammar (4 to 9), independently of the input-length limit: all-digit
+// templates with yd year digits, both layouts, the limit disabled or generous
+//
+//verif:harness C09 quick yd=3..4
+//verif:harness C09 quick yd=9..11
+//verif:harness C09 thorough yd=5..8
+func H_C09_yearDigits(yd int) {
+	extended := vBool("extended")
+	var in []byte
+	digit := func(name string) byte {
+		c := vU8(name)
+		vAssume(c >= '0' && c <= '9')
+		return c
+	}
+	y := 0
+	for i := 0; i < yd; i++ {
+		c := digit("y" + string(rune('a'+i)))
+		in = append(in, c)
+		y = y*10 + int(c-'0')
+	}
+	if extended {
+		in = append(in, '-')
+	}
+	m1, m2 := digit("m1"), digit("m2")
+	in = append(in, m1, m2)
+	if extended {
+		in = append(in, '-')
+	}
+	d1, d2 := digit("d1"), digit("d2")
+	in = append(in, d1, d2)
+	m, dd := int(m1-'0')*10+int(m2-'0'), int(d1-'0')*10+int(d2-'0')
+	max := vInt("max")
+	vAssume(max == 0 || (max >= 17 && max <= 1000))
+	save := MaxInputLength
+	MaxInputLength = max
+	d, err := DefaultParser(in, 0)
+	sd, serr := DefaultParser(string(in), 0)
+	MaxInputLength = save
+	accept := yd >= 4 && yd <= 9 && refValid(y, m, dd)
+	vReach("accepted", err == nil)
+	vReach("rejected", err != nil)
+	vAssert("accept-iff-4-to-9-year-digits-and-real-day", (err == nil) == accept)
+	vAssert("string-agrees", (serr == nil) == (err == nil) && sd == d)
+	if err == nil {
+		gy, gm, gd := d.Date()
+		vAssert("components-as-written", gy == y && int(gm) == m && gd == dd)
+	} else {
+		vAssert("zero-on-error", d == Date{})
+		vAssert("not-too-long", !errorsIs(err, ErrInputTooLong))
+	}
+}
